@@ -36,3 +36,38 @@ Lemma float_good_witness :
   step_wf_b 7 (step_indices_F (linspace 0%float 1%float 7) 3) = true /\
   step_indices_F (linspace 0%float 1%float 7) 3 = idx_of_fun 7 3 (step_of 7 3).
 Proof. split; vm_compute; reflexivity. Qed.
+
+(* ---------------- when the binary64 partition IS the exact one (bounded exhaustive, bounds in the statements) -------- *)
+Lemma natl_eqb_eq x y : natl_eqb x y = true <-> x = y.
+Proof. apply list_eqb_spec. intros; apply Nat.eqb_eq. Qed.
+Lemma natll_eqb_eq x y : natll_eqb x y = true <-> x = y.
+Proof. apply list_eqb_spec. apply natl_eqb_eq. Qed.
+
+Definition all_Nn_ok (M : nat) (f : nat -> nat -> list (list nat)) : bool :=
+  forallb (fun N => forallb (fun n => natll_eqb (f N n) (step_indices_ideal N n)) (seq 1 N)) (seq 2 (M - 1)).
+
+Lemma all_Nn_ok_spec M f : all_Nn_ok M f = true ->
+  forall N n, (2 <= N <= M)%nat -> (1 <= n <= N)%nat -> f N n = step_indices_ideal N n.
+Proof.
+  intros H N n HN Hn. unfold all_Nn_ok in H. rewrite forallb_forall in H.
+  specialize (H N ltac:(apply in_seq; lia)). rewrite forallb_forall in H.
+  specialize (H n ltac:(apply in_seq; lia)). apply natll_eqb_eq. exact H.
+Qed.
+
+(* the loop of StepExpansion.__init__ run in binary64 on the node NUMBERS (the minimal repair) returns exactly the
+   node-number partition -- every N <= 40, every n_steps <= N *)
+Theorem step_nodes_float_exact_bounded : forall N n, (2 <= N <= 40)%nat -> (1 <= n <= N)%nat ->
+  step_indices_nodes N n = step_indices_ideal N n.
+Proof. apply all_Nn_ok_spec. vm_compute. reflexivity. Qed.
+
+(* today's loop on node COORDINATES is exact whenever the coordinates themselves are: on every grid x0 + k*h of the
+   dyadic family (36 offset/spacing pairs), every N <= 20 and every n_steps <= N (dividing N-1 or not) *)
+Theorem step_float_exact_on_dyadic_grids_bounded : forall x0 h N n, In (x0, h) dyadic_family ->
+  (2 <= N <= 20)%nat -> (1 <= n <= N)%nat ->
+  step_indices_F (fgrid x0 h N) n = step_indices_ideal N n.
+Proof.
+  intros x0 h N n Hin. revert N n.
+  assert (H : forallb (fun p => all_Nn_ok 20 (fun N n => step_indices_F (fgrid (fst p) (snd p) N) n)) dyadic_family = true)
+    by (vm_compute; reflexivity).
+  rewrite forallb_forall in H. specialize (H (x0, h) Hin). cbn [fst snd] in H. apply all_Nn_ok_spec. exact H.
+Qed.
